@@ -50,10 +50,17 @@ EmbedsDecl(s, A) ==
 
 Filter(s, S) == SelectSeq(s, LAMBDA x : x \in S)
 
+\* "a non-optional profile attribute is missing from the subject": the profile's attributes are the ENTRIES of its list. A list
+\* that asks for the same type twice (OU, OU) asks for two of them: a subject with one OU misses one. (An earlier version compared
+\* the SETS of types and left lists with repeated mandatory types open; DESIGN 12.3.)
+CountMand(A, t) == Cardinality({k \in DOMAIN A : A[k].attribute = t /\ ~A[k].optional})
+CountIn(s, t)   == Cardinality({i \in DOMAIN s : s[i] = t})
+MandatoryMissing(A, types) == \E t \in Required(A) : CountMand(A, t) > CountIn(types, t)
+
 MustReject(hasList, A, allowOther, types) ==
   /\ hasList
   /\ \/ (~allowOther /\ ~IsSubseq(types, A))
-     \/ ~(Required(A) \subseteq RangeOf(types))
+     \/ MandatoryMissing(A, types)
 
 MustAccept(hasList, A, allowOther, types) ==
   \/ ~hasList
